@@ -6,12 +6,25 @@ open GoPlugin Interop Props.C14
 
 theorem facts_good : Facts.interop.Good ∧ Facts.handshake.Good := by decide
 
-/-- every one of the 432 cells, with the facts of the current source -/
+/-- every one of the 864 cells, with the facts of the current source -/
 theorem holds_interop_matrix : ∀ hc ∈ allHost, ∀ pc ∈ allPlug, compose Facts.interop Facts.handshake hc pc = expected hc pc := by
   decide
 
 theorem holds_never_broken (hc : HostC) (pc : PlugC) : compose Facts.interop Facts.handshake hc pc ≠ .broken := by
   rw [holds_interop_matrix hc (allHost_complete hc) pc (allPlug_complete pc)]; unfold expected
   split <;> (try split) <;> (try split) <;> (try split) <;> simp
+
+/-- the 108 legacy-line cells, with the facts of the current source -/
+theorem holds_legacy_matrix : ∀ hc ∈ allHost, ∀ s ∈ [PSec.none, .static], composeLegacy Facts.interop Facts.handshake hc s = expected hc (legacyPlug s) := by
+  decide
+
+/-- at the current source: never a silently downgraded connection, whatever the plugin answers -/
+theorem holds_never_downgraded (hc : HostC) (pc : PlugC) : compose Facts.interop Facts.handshake hc pc ≠ .downgraded :=
+  never_downgraded_good Facts.interop Facts.handshake facts_good.1 hc pc
+
+/-- at the current source: an AutoMTLS host that completes a call talks to a plugin serving AutoMTLS -/
+theorem holds_automtls_never_plaintext (hc : HostC) (pc : PlugC) (ha : hc.sec = .auto) (hl : hc.launch ≠ .reattach)
+    (h : compose Facts.interop Facts.handshake hc pc = .works) : plugTls hc pc = .auto ∧ pc.noAuto = false :=
+  automtls_never_plaintext Facts.interop Facts.handshake facts_good.1 hc pc ha hl h
 
 end GoPlugin.Instance.C14
